@@ -3,6 +3,7 @@ package main
 import (
 	"runtime"
 	"sync"
+	"sync/atomic"
 	"time"
 )
 
@@ -125,14 +126,26 @@ func (a *actor) releaseAll() {
 	}
 }
 
-// waitFor polls cond until it holds or d has elapsed.
+// waitFor polls cond until it holds or the watchdog d is exhausted. The
+// watchdog counts the time during which this polling loop itself was running:
+// a pause between two polls counts for at most 5 ms, so a stall of the whole
+// process or machine (the library's goroutines could not run either) does not
+// exhaust it.
 func waitFor(d time.Duration, cond func() bool) bool {
-	deadline := time.Now().Add(d)
+	var virt time.Duration
+	last := time.Now()
 	for i := 0; ; i++ {
 		if cond() {
 			return true
 		}
-		if time.Now().After(deadline) {
+		now := time.Now()
+		step := now.Sub(last)
+		last = now
+		if step > 5*time.Millisecond {
+			step = 5 * time.Millisecond
+		}
+		virt += step
+		if virt >= d {
 			return false
 		}
 		if i < 50 {
@@ -141,4 +154,11 @@ func waitFor(d time.Duration, cond func() bool) bool {
 			time.Sleep(50 * time.Microsecond)
 		}
 	}
+}
+
+// within runs f in its own goroutine and waits for it under waitFor's watchdog.
+func within(d time.Duration, f func()) bool {
+	var done atomic.Bool
+	go func() { f(); done.Store(true) }()
+	return waitFor(d, done.Load)
 }
